@@ -301,6 +301,10 @@ func (e *ExecutionConfig) setProposerConfigOptions(_ context.Context,
 	// Add new relays.
 	for address, proposerRelayConfig := range proposerConfig.Relays {
 		if _, alreadyUpdated := updated[address]; !alreadyUpdated {
+			if proposerRelayConfig.Disabled {
+				// A disabled relay is not used, whether or not it is inherited.
+				continue
+			}
 			relays = append(relays, e.generateRelayConfig(address, proposerConfig, proposerRelayConfig, fallbackFeeRecipient, fallbackGasLimit))
 		}
 	}
